@@ -154,6 +154,10 @@ fn main() {
         data::SMALL.store(true, std::sync::atomic::Ordering::Relaxed);
     }
     #[cfg(feature = "alloc_world")]
+    if args.iter().any(|a| a == "--env-fault") {
+        c18::ENV_FAULT.store(true, std::sync::atomic::Ordering::Relaxed);
+    }
+    #[cfg(feature = "alloc_world")]
     if args.iter().any(|a| a == "--alloc-hard-fail") {
         c18::HARD_FAIL.store(true, std::sync::atomic::Ordering::Relaxed);
     }
@@ -211,6 +215,14 @@ fn main() {
             let dir = arg_val(&args, "--dir").unwrap_or_else(|| harness_error("--dir"));
             let seed = parse_u64(&arg_val(&args, "--seed").unwrap_or_else(|| "1".into()));
             let (code, rep) = c12file::main(&dir, seed);
+            println!("{}", serde_json::to_string(&rep).unwrap());
+            code
+        }
+        #[cfg(feature = "alloc_world")]
+        "c12alloc" => {
+            let g = |k: &str, d: &str| parse_u64(&arg_val(&args, k).unwrap_or_else(|| d.into()));
+            let dir = arg_val(&args, "--dir").unwrap_or_else(|| harness_error("--dir"));
+            let (code, rep) = c18::c12_alloc_fault(g("--api", "5") as u8, g("--min-size", "65536") as usize, g("--skip", "0"), g("--len", "300000") as usize, g("--seed", "1"), &dir);
             println!("{}", serde_json::to_string(&rep).unwrap());
             code
         }
